@@ -111,7 +111,7 @@ hc!(c15_q_s6_m2, sk_obj(&S6_TAB, 2, 3), p_c15::<S6>(2));
 hc!(c15_q_e0_taglast_model, sk_enum_last(&E0_TAB, 0, &[1, 2, 3], 1, &[3, 1]), p_cat::<E0>(true, false));
 hc!(c15_q_e0_tag1_rev, sk_enum(&E0_TAB, true, 0, &[1, 2, 3], 1, &[3, 1]), p_c15::<E0>(0));
 hc!(c15_q_e1_taglast_model, sk_enum_last(&E1_TAB, 0, &[1, 2, 3, 7], 1, &[4, 5, 6]), p_cat::<E1>(true, true));
-hc!(c02_q_e0_tag1, sk_enum(&E0_TAB, true, 0, &[1, 2, 3], 1, &[3, 1]), p_cat::<E0>(true, true));
+hc!(c02_q_e0_tag1, sk_enum(&E0_TAB, true, 0, &[1, 2, 3], 1, &[3, 1]), p_cat::<E0>(true, false));
 hc!(c12_q_e0_tagtwice, sk_enum(&E0_TAB, true, 0, &[1, 2, 3], 1, &[0, 3]), p_c01::<E0>(true));
 
 // ---- tagged enums, thorough: tag first / last with two further members (a symbolic tag
@@ -124,3 +124,13 @@ hc!(c04_t_e1_tag2, sk_enum(&E1_TAB, true, 0, &[1, 2, 3, 7], 2, &[4, 5, 6]), p_c0
 hc!(c04_t_e2_tag2, sk_enum(&E2_TAB, true, 0, &[1, 2, 6], 2, &[3, 4, 5]), p_c04::<E2>(true));
 hc!(c12_t_e1_tagtwice2, sk_enum(&E1_TAB, true, 0, &[1, 2, 3, 7], 2, &[0, 4, 5]), p_c01::<E1>(true));
 hc!(c12_t_e1_notag, sk_enum(&E1_TAB, false, 0, &[1], 2, &[4, 5, 1]), p_c01::<E1>(false));
+
+// ---- two members with per-member key sets (quick): an earlier entry (any field / unknown
+//      key) followed by the entry of the field with the user function, and the reverse
+hc!(c01_q_s4_pre_v, sk_obj_sets(&S4_TAB, &[&[3, 1, 4], &[0]]), p_c01::<S4>(true));
+hc!(c02_q_s4_pre_v, sk_obj_sets(&S4_TAB, &[&[3, 1, 4], &[0]]), p_cat::<S4>(true, true));
+hc!(c01_q_s3_unk_pre, sk_obj_sets(&S3_TAB, &[&[0, 1, 3], &[3, 4]]), p_c01::<S3>(false));
+hc!(c02_q_s3_unk_pre, sk_obj_sets(&S3_TAB, &[&[0, 1, 3], &[3, 4]]), p_cat::<S3>(false, true));
+hc!(c03_q_s4_pre_v, sk_obj_sets(&S4_TAB, &[&[3, 1], &[0]]), p_c03::<S4>(true));
+hc!(c04_q_s5_pre_v, sk_obj_sets(&S5_TAB, &[&[1, 2], &[0]]), p_c04::<S5>(true));
+hc!(c01_q_s5_pre_v, sk_obj_sets(&S5_TAB, &[&[1, 2], &[0]]), p_c01::<S5>(true));
